@@ -346,10 +346,13 @@ def CanonicalPerfB (nb ms : Int) (strict : Bool) (evs : List PEvent) : Bool :=
   decide (1 ≤ ms) && evs.all PEvent.valid &&
   decide (emit nb ms 0 0 (stream 0 0 evs) = evs) && streamOk nb strict (stream 0 0 evs)
 
-/-- canonical, as proved round-trippable: no two notes of one pitch start on one step -/
+/-- canonical, strict: no two notes of one pitch start on one step.  These lists are normal forms: the round trip of
+ANY event list rendering to the same notes returns them, whatever the storage order of the rendered notes
+(`roundtrip_Performance_normal`); the extractor's output on overlap-free input satisfies it (`extract_canonical_Perf`) -/
 def CanonicalPerf (nb ms : Int) (evs : List PEvent) : Prop := CanonicalPerfB nb ms true evs = true
 
-/-- canonical at full strength (several NOTE_ONs of one pitch on one step allowed) -/
+/-- canonical at full strength (several NOTE_ONs of one pitch on one step allowed): what the property quantifies over
+(`roundtrip_Performance`, `roundtrip_MetricPerformance`) -/
 def CanonicalPerfFull (nb ms : Int) (evs : List PEvent) : Prop := CanonicalPerfB nb ms false evs = true
 
 instance (nb ms : Int) (evs : List PEvent) : Decidable (CanonicalPerf nb ms evs) :=
